@@ -19,6 +19,12 @@ CHECKS['C03'] = dict(engine='S', tech=S_TECH,
 CHECKS['C05'] = dict(engine='S', tech=S_TECH,
     text='bounded symbolic verification: starting from the symbolic honest (accepted) triple, each component is altered in turn (+delta*X for every proof point/commitment and generator direction X, +delta for scalars, swaps, rounds, tag, promises, bit length, generators, context, also inside batches); the library must return Err in both verifying modes, and z3 shows the altered residual is non-zero for EVERY delta != 0 (scalars) or not identically zero (points/statement)',
     note='A1, A2, A3, A4, A5; configurations and positions enumerated, values symbolic', ref='§5 C05')
+CHECKS['C09'] = dict(engine='S', tech=S_TECH,
+    text='bounded symbolic verification: for seeded non-aggregated proofs z3 proves each recovered mask component term-equal to the blinding variable of that component (distinct variables per component, so an index mix-up is a failed identity), for x = 1..6 and every bit length; presence/absence and position of masks in mixed batches in every order',
+    note='A1 (nonce(seed,label,j,k) are oracle symbols: prover and verifier must query the same ones), A2, A4, A5', ref='§5 C09')
+CHECKS['C10'] = dict(engine='S', tech=S_TECH,
+    text='bounded symbolic verification: one proof viewed through three statements (prover\'s seed, another seed, no seed) in three modes: z3 proves the verifier\'s residual linear form identical across views and modes (honest and altered proofs), recovery with another seed differs from the mask by a polynomial that is not identically zero, RecoverOnly == RecoverAndVerify masks',
+    note='A1, A2, A4, A5; aggregation 1', ref='§5 C10')
 NA = {
 }
 def main():
